@@ -499,10 +499,18 @@ impl Mp4Track {
 
             let first_sample_in_chunk = sample_id - (sample_id - first_sample) % samples_per_chunk;
 
-            let mut sample_offset = 0u64;
-            for i in first_sample_in_chunk..sample_id {
-                sample_offset += self.sample_size(i)? as u64;
-            }
+            let stsz = &self.trak.mdia.minf.stbl.stsz;
+            let sample_offset = if stsz.sample_size > 0 {
+                // Constant sample size: do not visit every earlier sample of the chunk, the
+                // chunk length comes from a 32-bit field and need not be backed by any data.
+                (sample_id - first_sample_in_chunk) as u64 * stsz.sample_size as u64
+            } else {
+                let mut sample_offset = 0u64;
+                for i in first_sample_in_chunk..sample_id {
+                    sample_offset += self.sample_size(i)? as u64;
+                }
+                sample_offset
+            };
 
             chunk_offset
                 .checked_add(sample_offset)
